@@ -110,10 +110,10 @@ end Unsplit
 /-! ### the split registry against the unsplit one -/
 
 section SplitW
-variable (s : Split) (R R' : Registry) (opts : Opts) (plug : Plug)
+variable (s : Split) (R R' : Registry) (opts : Opts) (plug plug' : Plug)
 
 def Ws : World where
-  env₁ := envOf R' opts plug
+  env₁ := envOf R' opts plug'
   env₂ := envOf R opts plug
   lk₂ := lkOf R (linkAll R).1
   σ := s.σ
@@ -159,8 +159,8 @@ theorem other_mem' (hr : RegsOK s R R') {x : Mod} (hx : x ∈ R.mods) (hne : x.s
   rwa [IncludeLink.repl_of_ne hne] at this
 
 theorem Ws_ok (ht : TextOK s) (hr : RegsOK s R R') (hl : LinkOK s R (linkAll R).1 (linkAll R').1)
-    (hv : Visible s R' (linkAll R').1) (hp : PlugSplitOK s R R' plug) (hpos : PosWF R') (hrefs : RefsWF R')
-    (hfuel : LookupFuelOK R') : (Ws s R R' opts plug).OK where
+    (hv : Visible s R' (linkAll R').1) (hp : PlugSplitOK s R R' plug plug') (hpos : PosWF R') (hrefs : RefsWF R')
+    (hfuel : LookupFuelOK R') : (Ws s R R' opts plug plug').OK where
   cr_seq := by
     rintro r₁ s₁ r₂ s₂ (⟨hP, rfl, _⟩ | ⟨hx, _, rfl, _⟩)
     · exact σ_part hr hP
